@@ -88,10 +88,34 @@ def engines(tier):
     return es
 
 
+def overlapping_programs(rng, tier):
+    """2-3 threads (clones) calling one unordered method with two or three OVERLAPPING patterns, each quantified exactly with the number
+    of calls it is going to answer: the first declared accepting pattern answers and is counted also when the calls overlap in time"""
+    progs = []
+    for (nth, ncalls) in [(2, 1), (2, 2), (3, 1)] + ([(3, 2), (2, 3)] if tier == "thorough" else []):
+        for _ in range(3 if tier == "quick" else 8):
+            a = rng.randrange(8)
+            b = rng.choice([x for x in range(8) if x != a])
+            threads = [[(0, rng.choice([a, a, b])) for _ in range(ncalls)] for _ in range(nth)]
+            na = sum(1 for t in threads for (_, x) in t if x == a)
+            nb = sum(1 for t in threads for (_, x) in t if x == b)
+            terms = []
+            if na:
+                terms.append({"kind": "call", "mid": 0, "opener": "each", "pat": {"matcher": 1 << a, "dbg": 1, "ops": [("ret", 1), ("n", na)]}})
+            if nb:
+                terms.append({"kind": "call", "mid": 0, "opener": "each", "pat": {"matcher": (1 << a) | (1 << b), "dbg": 2, "ops": [("ret", 2), ("n", nb)]}})
+            terms.append({"kind": "call", "mid": 0, "opener": "each", "pat": {"matcher": 255, "dbg": 3, "ops": [("ret", 3), ("al", 0)]}})
+            progs.append({"partial": False, "terms": terms, "threads": threads, "sched": [], "shared": rng.random() < 0.3})
+    return progs
+
+
 def run(tier, seed):
+    from ..layer_b import ConcurrentPart
     return run_coexec("C01", tier, seed, module=MODULE, theorems=THEOREMS, gen_cases=gen_cases,
                       nontrivial=nontrivial, rule=RULE, engines=engines(tier), stats=stats,
-                      parts=[TuplePart("C01", proj_default)])
+                      parts=[TuplePart("C01", proj_default),
+                             ConcurrentPart("C01", overlapping_programs, "correspondence C01 (concurrent part): overlapping calls to overlapping patterns - which "
+                                            "pattern answers, and the counts the verdict is computed from, vs the Layer B model under every interleaving")])
 
 
 def replay(path):
